@@ -21,6 +21,13 @@ const (
 //
 // Everything else (words, sign, exponent, mode, accuracy) is symbolic.
 func vDec(name string, frm, w, capx, prec int) *Decimal {
+	if vShareOn {
+		return vSharedDec(name, frm, w, capx, prec)
+	}
+	return vDec0(name, frm, w, capx, prec)
+}
+
+func vDec0(name string, frm, w, capx, prec int) *Decimal {
 	x := new(Decimal)
 	x.neg = vBool(name + ".neg")
 	x.mode = RoundingMode(vU64(name+".mode", 0, 5))
